@@ -13,7 +13,12 @@ Definition rank_rec : Type := nat * list nat * nat * list Z * list (nat * list n
 
 (* configuration, the records of rank 0..W-1, and the stream of the same sampler
    built with world size 1 (= the global draw as seen from outside) *)
-Definition case_t : Type := scfg * list rank_rec * list nat.
+(* one sampler OBJECT of some rank driven through a call sequence: set_epoch(e) calls and list(sampler) calls, with
+   what every list(sampler) showed (a fresh object: self.epoch = 0 before the first call) *)
+Inductive hop := HSet (e : Z) | HIter (rr : rank_rec).
+Definition hist_t : Type := nat * list hop.
+
+Definition case_t : Type := scfg * list rank_rec * list nat * hist_t.
 
 Definition replay (ds : list (nat * list nat)) : oracle := fun _ h _ => snd (nth (length h) ds (0, [])).
 
@@ -27,14 +32,64 @@ Definition model_run (s : scfg) (draw : oracle) (rank : nat) : run :=
   | SCB c => cb_run c draw rank
   end.
 
-Definition rank_agrees (s : scfg) (rank : nat) (rr : rank_rec) : bool :=
+Definition run_agrees (m : run) (rr : rank_rec) : bool :=
   let '(code, stream, len, seeds, ds) := rr in
-  let m := model_run s (replay ds) rank in
   (code_of (r_out m) =? code) &&
   (if code =? 0
    then list_eqb Nat.eqb (stream_of (r_out m)) stream && (r_len m =? len)
         && list_eqb Z.eqb (r_seeds m) seeds && list_eqb Nat.eqb (r_reqs m) (map fst ds)
    else true).
+
+Definition rank_agrees (s : scfg) (rank : nat) (rr : rank_rec) : bool :=
+  let '(_, _, _, _, ds) := rr in run_agrees (model_run s (replay ds) rank) rr.
+
+(* --- the object history --- *)
+Definition ops_of (hs : list hop) : list op :=
+  map (fun x => match x with HSet e => SetEpoch e | HIter _ => Iterate end) hs.
+Definition iters_of (hs : list hop) : list rank_rec :=
+  flat_map (fun x => match x with HIter rr => [rr] | HSet _ => [] end) hs.
+
+(* generator determinism: what a generator returns is a function of its seed and of the requests made on it.  The
+   replay oracle of a history is therefore keyed by the seed: the draws recorded for the FIRST list(sampler) call
+   that seeded its generator with that value.  A later call that seeds equally but draws differently (state kept
+   between calls) then disagrees with the model. *)
+Definition seed_table (recs : list rank_rec) : list (Z * list (nat * list nat)) :=
+  flat_map (fun rr : rank_rec => let '(_, _, _, seeds, ds) := rr in
+                                 match seeds with s :: _ => [(s, ds)] | [] => [] end) recs.
+Definition replay_by_seed (tab : list (Z * list (nat * list nat))) : oracle :=
+  fun seed h _ => match find (fun e => Z.eqb (fst e) seed) tab with
+                  | Some (_, ds) => snd (nth (length h) ds (0, []))
+                  | None => []
+                  end.
+
+Definition model_object (s : scfg) (draw : oracle) (rank : nat) (ops : list op) : list run :=
+  match s with
+  | SDist c => dist_object (d_set_epoch c 0) draw rank ops
+  | SW c => w_object (w_set_epoch c 0) draw rank ops
+  | SCB c => cb_object (cb_set_epoch c 0) draw rank ops
+  | SRand _ => []
+  end.
+
+Definition hist_agrees (s : scfg) (h : hist_t) : bool :=
+  let '(rank, hs) := h in
+  let recs := iters_of hs in
+  let ms := model_object s (replay_by_seed (seed_table recs)) rank (ops_of hs) in
+  (length ms =? length recs) && forallb (fun '(m, rr) => run_agrees m rr) (combine ms recs).
+
+Definition cfg_epoch (s : scfg) : Z :=
+  match s with SDist c => d_epoch c | SRand _ => 0 | SW c => w_epoch c | SCB c => cb_epoch c end%Z.
+
+(* spec of a history, on the implementation's output only: every list(sampler) has len(sampler) = L entries; two
+   calls under the same epoch (set_epoch(e) .. set_epoch(e') .. set_epoch(e), or no set_epoch in between) show the
+   same stream; a call under the case's epoch shows the stream of the fresh sampler of that rank *)
+Definition hist_spec (s : scfg) (L : nat) (streams : list (list nat)) (h : hist_t) : bool :=
+  let '(rank, hs) := h in
+  let tagged := combine (iter_epochs 0 (ops_of hs)) (iters_of hs) in
+  forallb (fun '(e1, (_, st1, len1, _, _)) =>
+             (len1 =? L) && (length st1 =? L) &&
+             (if Z.eqb e1 (cfg_epoch s) then list_eqb Nat.eqb st1 (nth rank streams []) else true) &&
+             forallb (fun '(e2, (_, st2, _, _, _)) => if Z.eqb e1 e2 then list_eqb Nat.eqb st1 st2 else true) tagged)
+          tagged.
 
 Definition world (s : scfg) : nat :=
   match s with SDist c => d_W c | SRand _ => 1 | SW c => w_W c | SCB c => cb_W c end.
@@ -43,11 +98,13 @@ Definition seed_epoch (s : scfg) : Z :=
   match s with SDist c => d_seed c + d_epoch c | SRand c => rs_seed c | SW c => w_seed c + w_epoch c
           | SCB c => cb_seed c + cb_epoch c end%Z.
 
-Definition spec_holds (s : scfg) (recs : list rank_rec) (G : list nat) : bool :=
+Definition spec_holds (s : scfg) (recs : list rank_rec) (G : list nat) (h : hist_t) : bool :=
   let streams := map (fun '(_, st, _, _, _) => st) recs in
   let L := match recs with (_, _, len, _, _) :: _ => len | [] => 0 end in
   (* every rank reports the same len(sampler) ... *)
   forallb (fun '(_, _, len, _, _) => len =? L) recs &&
+  (* one object over several epochs / iterated again *)
+  (if forallb (fun '(code, _, _, _, _) => code =? 0) (iters_of (snd h)) then hist_spec s L streams h else true) &&
   (* ... has exactly that many entries and the ranks interleave into G, trailing entries dropped / wrapped *)
   split_ofb (drops s) (world s) L G streams &&
   (* every rank made the same draws from a generator seeded with seed + epoch *)
@@ -68,10 +125,11 @@ Definition spec_holds (s : scfg) (recs : list rank_rec) (G : list nat) : bool :=
 (* 0 = implementation, model and spec agree; 1 = the model differs from the
    implementation; 2 = the spec is false of the implementation's output *)
 Definition check (t : case_t) : nat :=
-  let '(s, recs, G) := t in
+  let '(s, recs, G, h) := t in
   if negb ((length recs =? world s) &&
-           forallb (fun '(rank, rr) => rank_agrees s rank rr) (combine (seq 0 (length recs)) recs))
+           forallb (fun '(rank, rr) => rank_agrees s rank rr) (combine (seq 0 (length recs)) recs) &&
+           hist_agrees s h)
   then 1
   else if forallb (fun '(code, _, _, _, _) => code =? 0) recs
-       then (if spec_holds s recs G then 0 else 2)
+       then (if spec_holds s recs G h then 0 else 2)
        else 0.
